@@ -10,6 +10,7 @@ import Mashu.Resolve
 import Mashu.Quote
 import Mashu.Discr
 import Mashu.Cache
+import Mashu.Lazy
 import Mashu.Generated
 open Lean
 
@@ -230,6 +231,39 @@ def dispatchCache (op : String) (j : Json) : Except String Json := do
         ("stacked", Json.arr (stackedOpts.map (fun kv => Json.arr #[Json.str kv.1, Json.str kv.2])).toArray),
         ("strat", Json.arr (m.strat.map (fun e => Json.arr #[Json.str e.1, ofM e.2.ser, ofM e.2.de])).toArray)])
 
+/-- C14: one class slot over a history of calls / resolution events, lazy vs eager -/
+def dispatchLazy (j : Json) : Except String Json := do
+  let optStr (x : Json) : Option String := match x with | .str t => some t | _ => none
+  let optNat (x : Json) : Option Nat := match x with
+    | .num n => if n.exponent == 0 && n.mantissa ≥ 0 then some n.mantissa.toNat else none
+    | _ => none
+  let pj := j.getObjValD "params"
+  let p : Lazy.Params := { fmt := (optStr (pj.getObjValD "fmt")).getD "dict", coder := optStr (pj.getObjValD "coder"),
+                            coderKwargs := optStr (pj.getObjValD "coder_kwargs"), defaultDialect := optNat (pj.getObjValD "default_dialect") }
+  let k : Lazy.Cls := { lazyCompilation := getB j "lazy", cfgAllowPostponed := getB j "cfg_allow_postponed" true,
+                        support := getB j "support", unpack := getB j "unpack", p := p }
+  let T : Lazy.Tables :=
+    { condsUnpack := Mashu.Generated.lazyStubCondsUnpack, condsPack := Mashu.Generated.lazyStubCondsPack,
+      reraiseUnpack := Mashu.Generated.lazyReraiseUnpack, reraisePack := Mashu.Generated.lazyReraisePack,
+      kwargsUnpack := Mashu.Generated.lazyKwargsUnpack, kwargsPack := Mashu.Generated.lazyKwargsPack,
+      forwardCoder := Mashu.Generated.lazyForwardCoder, stubAllowPostponed := Mashu.Generated.lazyStubAllowPostponed }
+  let r0 := getB j "resolvable" true
+  let evs ← (← arr (j.getObjValD "events")).toList.mapM (fun e => do
+    match e with
+    | .str "resolve" => pure Lazy.Event.resolve
+    | o => pure (Lazy.Event.call { dialect := optNat (o.getObjValD "dialect"), coder := optStr (o.getObjValD "coder") }))
+  let ofOpt (x : Option String) : Json := match x with | some t => Json.str t | none => Json.null
+  let ofOptN (x : Option Nat) : Json := match x with | some t => Json.num (JsonNumber.fromNat t) | none => Json.null
+  let ofO (o : Lazy.Out) : Json := match o with
+    | .ran f dd kw d c => Json.mkObj [("ran", Json.arr #[Json.str f, ofOptN dd, ofOpt kw, ofOptN d, ofOpt c])]
+    | .unresolved => Json.str "unresolved"
+    | .typeError => Json.str "typeerror"
+    | .diverged => Json.str "diverged"
+  match Lazy.define T k r0 with
+  | none => pure (Json.mkObj [("impl", Json.str "define-raises"), ("spec", Json.arr ((Lazy.runSpec k r0 evs).map ofO).toArray)])
+  | some st => pure (Json.mkObj [("impl", Json.arr ((Lazy.run T k 8 st evs).map ofO).toArray),
+                                 ("spec", Json.arr ((Lazy.runSpec k r0 evs).map ofO).toArray)])
+
 def natList (j : Json) : Except String (List Nat) := do
   (← arr j).toList.mapM (fun x => match x with
     | .num n => if n.exponent == 0 && n.mantissa ≥ 0 then pure n.mantissa.toNat else throw "bad code point"
@@ -265,6 +299,7 @@ def dispatch (j : Json) : Except String Json := do
   | "pyrepr" | "pylex" => dispatchQuote op j
   | "discr" | "discrnf" => dispatchDiscr op j
   | "cache" | "merge" => dispatchCache op j
+  | "lazy" => dispatchLazy j
   | _ => throw s!"unknown op {op}"
 
 end Mashu
